@@ -354,13 +354,17 @@ def _corr_real_optimisers(ctx, out):
         out["evaluations"] += 1
         case = dict(x0=x0, local=local, max_evaluations=me, tolerance=tol, d=d, n_calls=len(calls))
         # model-level claims on the recorded trace
-        body, last = calls[:-1], calls[-1]
+        n_counted = exc if exc is not None else int(evals)
+        body, tail = calls[:n_counted], calls[n_counted:]
         fin = [(vals[i], -k) for k, i in enumerate(body) if isinstance(vals[i], float)]
+        if not fin:
+            add_failure(out, "corr", "real optimiser trace: no counted evaluation", case, None, dict(calls=calls, exc=exc), confirmed=False)
+            continue
         best_v, negk = max(fin)
         first_arg = body[-negk]
         problems = []
-        if last != first_arg:
-            problems.append("last call is not the first argmax of the evaluated points")
+        if tail != [first_arg]:
+            problems.append("the calls after the counted evaluations are not exactly [first argmax of the evaluated points]")
         if exc is None and (tuple(float(v) for v in numpy.atleast_1d(x)) != tuple(rec_pts[first_arg]) or evals != len(body)):
             problems.append("returned x / evals differ from best point / number of calls")
         if me is not None and len(body) > me:
